@@ -11,3 +11,6 @@ open Femio.C12
 #print axioms C12_similarity_area
 #print axioms C12_similarity_sign
 #print axioms C12_affine_sign
+#print axioms C12_hex_sign_meanplane
+#print axioms C12_first_node_reference_counterexample
+#print axioms C12_planar_reference_point
